@@ -36,7 +36,7 @@ func isIfaceMethodCall(info *types.Info, call *ast.CallExpr, iface, method strin
 	}
 	n := astx.RecvNamed(fn)
 	if n != nil {
-		return n.Obj().Name() == iface
+		return n.Obj().Name() == iface || narrowedFrom(n, iface)
 	}
 	// method of an embedded/unnamed interface: check the static type of the receiver expression
 	if sel, ok := call.Fun.(*ast.SelectorExpr); ok {
@@ -45,6 +45,24 @@ func isIfaceMethodCall(info *types.Info, call *ast.CallExpr, iface, method strin
 		}
 	}
 	return false
+}
+
+// narrowedFrom reports whether named is an interface the inventory does not list and that the
+// inventory's interface `iface` satisfies: a parameter type narrowed to the methods a function uses.
+func narrowedFrom(named *types.Named, iface string) bool {
+	p := core.Current
+	if p == nil || named == nil || named.Obj().Pkg() == nil {
+		return false
+	}
+	it, ok := named.Underlying().(*types.Interface)
+	if !ok || p.InInventory("type", named.Obj().Pkg().Path()+"."+named.Obj().Name()) {
+		return false
+	}
+	orig, _ := named.Obj().Pkg().Scope().Lookup(iface).(*types.TypeName)
+	if orig == nil {
+		return false
+	}
+	return types.Implements(orig.Type(), it)
 }
 
 // assignedFrom finds `lhs... := call` and returns the object at result index i.
